@@ -148,6 +148,7 @@ class GrammarGen:
     def __init__(self, rng):
         self.rng = rng
         self.inner = False
+        self.cur_ws = 2
         self.rules = {}
 
     def alternatives(self, n, d, nrules, level):
@@ -159,11 +160,40 @@ class GrammarGen:
             f = first_set(c, self.rules)
             if f & seen:
                 continue
+            if self.cur_ws == 0 and self.leading_skip(c):
+                # the first-character table is consulted at the raw position: below a node that skips nothing, an
+                # alternative that would begin by skipping (a repetition with a whitespace engine) is never reached
+                # through the table although plain ordered choice would reach it — outside the model (DESIGN 12.9)
+                continue
             seen |= f
             out.append(c)
             if len(out) == n:
                 break
         return out or [self.terminal()]
+
+    def uses_comment_engine(self, c, seen=()):
+        if not isinstance(c, list) or not c:
+            return False
+        if c[0] in ("seq", "many") and c[1] == 2:
+            return True
+        if c[0] == "ref":
+            return c[1] not in seen and self.uses_comment_engine(self.rules.get(c[1]), seen + (c[1],))
+        return any(self.uses_comment_engine(x, seen) for x in c[1:] if isinstance(x, list)) or any(
+            self.uses_comment_engine(y, seen) for x in c[1:] if isinstance(x, list) for y in x if isinstance(y, list))
+
+    def leading_skip(self, c, seen=()):
+        k = c[0]
+        if k == "many":
+            return c[1] != 0 or self.leading_skip(c[2], seen)
+        if k == "seq":
+            return bool(c[2]) and self.leading_skip(c[2][0], seen)
+        if k in ("group", "suppress", "opt"):
+            return self.leading_skip(c[1], seen)
+        if k in ("alt", "longest"):
+            return any(self.leading_skip(x, seen) for x in c[1])
+        if k == "ref":
+            return c[1] not in seen and c[1] in self.rules and self.leading_skip(self.rules[c[1]], seen + (c[1],))
+        return False
 
     def terminal(self):
         r = self.rng
@@ -199,7 +229,11 @@ class GrammarGen:
             ws = self.ws()
             return ["many", ws, self.under(ws, lambda: self.consuming(d - 1, nrules, level)), mn, r.choice([MAXREP, MAXREP, mn + 1])]
         if level + 1 < nrules:
-            return ["ref", r.randint(level + 1, nrules - 1)]
+            target = r.randint(level + 1, nrules - 1)
+            # the nesting rule of `ws()` holds through references too: a rule that uses the comment-aware engine is not
+            # referred to from below a node with another engine
+            if not (self.inner and self.uses_comment_engine(self.rules.get(target))):
+                return ["ref", target]
         return self.terminal()
 
     def ws(self):
@@ -212,12 +246,13 @@ class GrammarGen:
 
     def under(self, ws, make):
         """build children of a node whose engine is `ws`"""
-        old = self.inner
+        old, old_ws = self.inner, self.cur_ws
         self.inner = old or ws != 2
+        self.cur_ws = ws
         try:
             return make()
         finally:
-            self.inner = old
+            self.inner, self.cur_ws = old, old_ws
 
     def node(self, d, nrules, level):
         r = self.rng
